@@ -23,6 +23,18 @@ def lattice(n):
     return sorted({-x for x in pts} | pts)
 
 
+def wide_lattice(n, full=True):
+    """Lattice for bitlengths beyond the completely enumerated ones: the width's own boundaries, the
+    boundaries of every power-of-two table size below it, alternating bit patterns."""
+    pts = {0, 1, 2 ** (n - 1) - 1, 2 ** n - 1, 2 ** n, sum(1 << i for i in range(0, n, 2))}
+    for k in (8, 16, 32, 64):
+        if k < n:
+            pts |= {2 ** k - 1, 2 ** k, 2 ** k + 5}
+    if full:
+        pts |= {2, 3, 2 ** (n - 1), 2 ** (n - 1) + 1, 2 ** n + 1, sum(1 << i for i in range(1, n, 2))}
+    return sorted({-x for x in pts} | pts)
+
+
 def huge_lattice(p):
     """Values far outside any bitlength, for the operations that accept them (linear arithmetic,
     products, exact division, zero tests): machine-word boundaries and the field's own boundary."""
@@ -202,6 +214,9 @@ def depth1_programs(include_bool=True, include_assert=True, include_fxp=False):
                       "kinds": list(kinds)})
     progs.append({"expr": ("op", "if_else", ("in", 0), ("in", 1), ("in", 2)),
                   "kinds": ["B", "S", "S"]})
+    # recomposition from a list of entries that need not be bits (value and wire must still agree)
+    for kinds in (("S", "S", "S"), ("B", "S", "B"), ("S", "K", "S")):
+        progs.append({"expr": ("op", "from_bits3", ("in", 0), ("in", 1), ("in", 2)), "kinds": list(kinds)})
     if include_bool:
         for name in O.BINARY_BOOL:
             for kinds in (("B", "B"), ("B", "K"), ("K", "B"), ("B", "S"), ("S", "B")):
